@@ -183,6 +183,14 @@ def run(tier):
             gr = hs.Grid(version='3.0', columns=[('ts', []), ('n', [])])
             gr.extend([{'ts': v, 'n': j} for j, v in enumerate(near[k * per:(k + 1) * per])])
             season_docs.append(A.doc([gr]))
+        # one instant under several fixed offsets, side by side and in both orders: the zone found for one value says
+        # nothing about the next (date-times compare and hash by instant, whatever their offsets)
+        inst0 = pytz.utc.localize(_dt.datetime(2020, 6, 1, 10, 0, 0))
+        offs = [330, 120, -300, 0, 570, 600]
+        for order in (offs, offs[::-1], offs[2:] + offs[:2]):
+            gr = hs.Grid(version='3.0', columns=[('ts', []), ('n', [])])
+            gr.extend([{'ts': inst0.astimezone(pytz.FixedOffset(m)), 'n': j} for j, m in enumerate(order)])
+            season_docs.append(A.doc([gr]))
         docs2 = season_docs + docs2
         # unofficial version spellings are part of the quantifier: respell a share of the versions
         for k, d in enumerate(docs2):
